@@ -228,7 +228,7 @@ class C02(Check):
     rule = ('Engine A cases = random scenarios (2-4 threads, 1-2 FileLock objects on one path, 1-3 rounds per '
             'thread through acquire()/non-blocking/timed/acquire_ctx/with, a private object dropped while held (abandon), '
             'forced release (also of a nested hold), a private object whose quick attempt fails and that is dropped later '
-            '(stale); reentrant with nested re-acquire or not) under random/pct/stall schedules; non-trivial = at least two contenders attempted to acquire '
+            '(stale), a nested block of a reentrant lock left by an exception that the outer block handles; reentrant with nested re-acquire or not) under random/pct/stall schedules; non-trivial = at least two contenders attempted to acquire '
             'while one held (someone blocked, timed out or was refused) ; process cases = N processes x T '
             'threads x R rounds with line-level sleep injection, holders forking a helper process inside the section in two '
             'thirds of the cases (5-10 % of their sections); distinct = distinct (case, baton-move '
